@@ -612,6 +612,50 @@ def recurrent_layer_shard(kind, depth):
     return tally
 
 
+def pooling_identity_shard(kind):
+    """Monitors are pooled between two cells of one trainer only when they would compute the same thing: two cells ending on one neuron
+    group, the second registered with per-cell overrides that change exactly one hyper-parameter (every overridable one in turn).
+    After every sequence of layer steps up to length 3 each cell's monitors hold what its OWN hyper-parameters give (differential:
+    the same cell registered alone on a twin trainer and layer), and with identical hyper-parameters the cells do share."""
+    tally = Tally()
+    overrides = {"stdp": [{}, {"lr_pre": -0.0625}, {"lr_post": 0.25}, {"tc_post": 8.0}, {"tc_pre": 8.0}, {"trace_mode": "nearest"}],
+                 "mstdpet": [{}, {"lr_pre": -0.0625}, {"lr_post": 0.25}, {"tc_post": 8.0}, {"tc_pre": 8.0}, {"tc_eligibility": 9.0}]}[kind]
+    for ov in overrides:
+        for nsteps in (1, 2, 3):
+            tally.add("transitions")
+            case = {"config": {"trainers": [kind], "part": "pooling identity"}, "override_on_cell_b": {k: v for k, v in ov.items()}, "steps": nsteps}
+            try:
+                worlds = []
+                for solo in (False, True):
+                    w = World((kind, kind))
+                    tr = w.trainers[0]
+                    if not solo:
+                        tr.register_cell("a", w.layer.get_cell("a", "x"))
+                    tr.register_cell("b", w.layer.get_cell("b", "x"), **ov)
+                    for _ in range(nsteps):
+                        w.step()
+                    worlds.append((w, tr))
+                (w2, t2), (w1, t1) = worlds
+                for n, mon in t2.named_monitors_of("b"):
+                    ref = dict(t1.named_monitors_of("b"))[n]
+                    a, b = mon.peek(), ref.peek()
+                    same = (a is None and b is None) or (a is not None and b is not None and a.shape == b.shape and torch.allclose(a, b, equal_nan=True))
+                    if not same:
+                        tally.violation(f"pooling:{kind}:wrong-monitor-shared:{n}", case, f"monitor '{n}' of cell b holds {None if a is None else a.reshape(-1).tolist()} "
+                                        f"when cell a is registered too, {None if b is None else b.reshape(-1).tolist()} when b is alone (override {ov})")
+                if not ov:
+                    ma, mb = dict(t2.named_monitors_of("a")), dict(t2.named_monitors_of("b"))
+                    shared = [n for n in mb if n in ma and ma[n] is mb[n]]
+                    if not shared:
+                        tally.violation(f"pooling:{kind}:nothing-shared", case, "two cells with identical hyper-parameters on one neuron group share no monitor")
+                tally.mark("nontrivial", ("pooling", kind, tuple(sorted(ov.items())), nsteps))
+            except Exception as ex:
+                tally.violation(f"pooling:exception:{kind}:{type(ex).__name__}", case, f"{type(ex).__name__}: {ex}", None, repr(ex))
+    tally.add("states", 1)
+    tally.sample({"part": "pooling identity", "trainer": kind, "overrides": [list(o) for o in overrides]})
+    return tally
+
+
 def run(rep):
     quick = rep.tier == "quick"
     jobs = []
@@ -619,6 +663,8 @@ def run(rep):
         jobs.append((two_layer_shard, (k, 4 if quick else 5)))
     for k in ("stdp", "kernel"):
         jobs.append((recurrent_layer_shard, (k, 3 if quick else 4)))
+    for k in ("stdp", "mstdpet"):
+        jobs.append((pooling_identity_shard, (k,)))
     depth1 = 5 if quick else 7
     depth2 = 3 if quick else 5
     cap = 2500 if quick else 20000
